@@ -62,12 +62,27 @@ func DirectTypes(m *openfgav1.AuthorizationModel, t, r string) []*openfgav1.Rela
 
 // NewUniverse enumerates nobj objects per type and every tuple the model's restrictions allow over
 // them, plus a few tuples it does not allow (leftovers of an older model).
+// StarSecondID makes the second object of every type `type:2*`: an ordinary id that ends in '*'. Code that
+// recognises typed wildcards by suffix instead of by the exact id `*` misbehaves on it.
+var StarSecondID bool
+
+// LowFirstID makes the first object of every type `type:$1`: '$' sorts before '*', so a typed wildcard is not the
+// first user in a list sorted by user string.
+var LowFirstID bool
+
 func NewUniverse(m *openfgav1.AuthorizationModel, nobj int, withInvalid bool) *Universe {
 	u := &Universe{Model: m, Objects: map[string][]string{}}
 	for _, td := range m.GetTypeDefinitions() {
 		u.Types = append(u.Types, td.GetType())
 		for i := 1; i <= nobj; i++ {
-			u.Objects[td.GetType()] = append(u.Objects[td.GetType()], td.GetType()+":"+strconv.Itoa(i))
+			id := strconv.Itoa(i)
+			if StarSecondID && i == 2 {
+				id = "2*" // a concrete id that merely ends in the wildcard character
+			}
+			if LowFirstID && i == 1 {
+				id = "$1" // an id whose first byte sorts before the wildcard character
+			}
+			u.Objects[td.GetType()] = append(u.Objects[td.GetType()], td.GetType()+":"+id)
 		}
 	}
 	for _, td := range m.GetTypeDefinitions() {
@@ -260,6 +275,27 @@ func (s *Store) SplitContextual(k int) []*openfgav1.TupleKey {
 	return out
 }
 
+// ContextualCopies returns the present candidates among the first k valid ones WITHOUT removing them from
+// the store: the same tuple is then both stored and contextual (nothing rejects that). The reference
+// semantics is unaffected (a tuple is present or not, however often it is supplied).
+func (s *Store) ContextualCopies(k int) []*openfgav1.TupleKey {
+	var out []*openfgav1.TupleKey
+	n := 0
+	for i, c := range s.U.Cands {
+		if n >= k {
+			break
+		}
+		if !c.Valid {
+			continue // request validation rejects contextual tuples the model does not allow
+		}
+		n++
+		if s.P[i] {
+			out = append(out, c.Key)
+		}
+	}
+	return out
+}
+
 func NewSymbolicStore(u *Universe) *Store {
 	s := &Store{U: u, CondMet: map[string]bool{}, CondErr: map[string]bool{}}
 	// one outcome per condition name: candidate tuples carry no context of their own, so the outcome
@@ -346,6 +382,15 @@ func (s *Store) StubConditions() {
 // presence test is symbolic: the engine forks on it lazily, per tuple actually read.
 type Reader struct {
 	S *Store
+	// RequireHC (C10): the request under test asked for HIGHER_CONSISTENCY, so every read issued on its
+	// behalf must carry that preference in its options (that is what makes the cache layers step aside).
+	RequireHC bool
+}
+
+func (r *Reader) requireHC(method string, p openfgav1.ConsistencyPreference) {
+	if r.RequireHC {
+		vt.Assert(p == openfgav1.ConsistencyPreference_HIGHER_CONSISTENCY, "a datastore read issued for a HIGHER_CONSISTENCY request does not carry the consistency preference ("+method+")")
+	}
 }
 
 var _ storage.RelationshipTupleReader = (*Reader)(nil)
@@ -394,7 +439,8 @@ func (r *Reader) tuple(i int) *openfgav1.Tuple {
 	return &openfgav1.Tuple{Key: r.S.U.Cands[i].Key}
 }
 
-func (r *Reader) Read(_ context.Context, _ string, f storage.ReadFilter, _ storage.ReadOptions) (storage.TupleIterator, error) {
+func (r *Reader) Read(_ context.Context, _ string, f storage.ReadFilter, o storage.ReadOptions) (storage.TupleIterator, error) {
+	r.requireHC("Read", o.Consistency.Preference)
 	var out []*openfgav1.Tuple
 	for i, c := range r.S.U.Cands {
 		if r.S.hidden(i) {
@@ -407,7 +453,8 @@ func (r *Reader) Read(_ context.Context, _ string, f storage.ReadFilter, _ stora
 	return storage.NewStaticTupleIterator(out), nil
 }
 
-func (r *Reader) ReadPage(ctx context.Context, store string, f storage.ReadFilter, _ storage.ReadPageOptions) ([]*openfgav1.Tuple, string, error) {
+func (r *Reader) ReadPage(ctx context.Context, store string, f storage.ReadFilter, o storage.ReadPageOptions) ([]*openfgav1.Tuple, string, error) {
+	r.requireHC("ReadPage", o.Consistency.Preference)
 	var out []*openfgav1.Tuple
 	for i, c := range r.S.U.Cands {
 		if r.S.hidden(i) {
@@ -420,7 +467,8 @@ func (r *Reader) ReadPage(ctx context.Context, store string, f storage.ReadFilte
 	return out, "", nil
 }
 
-func (r *Reader) ReadUserTuple(_ context.Context, _ string, f storage.ReadUserTupleFilter, _ storage.ReadUserTupleOptions) (*openfgav1.Tuple, error) {
+func (r *Reader) ReadUserTuple(_ context.Context, _ string, f storage.ReadUserTupleFilter, o storage.ReadUserTupleOptions) (*openfgav1.Tuple, error) {
+	r.requireHC("ReadUserTuple", o.Consistency.Preference)
 	for i, c := range r.S.U.Cands {
 		if r.S.hidden(i) {
 			continue
@@ -432,7 +480,8 @@ func (r *Reader) ReadUserTuple(_ context.Context, _ string, f storage.ReadUserTu
 	return nil, storage.ErrNotFound
 }
 
-func (r *Reader) ReadUsersetTuples(_ context.Context, _ string, f storage.ReadUsersetTuplesFilter, _ storage.ReadUsersetTuplesOptions) (storage.TupleIterator, error) {
+func (r *Reader) ReadUsersetTuples(_ context.Context, _ string, f storage.ReadUsersetTuplesFilter, o storage.ReadUsersetTuplesOptions) (storage.TupleIterator, error) {
+	r.requireHC("ReadUsersetTuples", o.Consistency.Preference)
 	var out []*openfgav1.Tuple
 	for i, c := range r.S.U.Cands {
 		if r.S.hidden(i) {
@@ -468,7 +517,8 @@ func (r *Reader) ReadUsersetTuples(_ context.Context, _ string, f storage.ReadUs
 	return storage.NewStaticTupleIterator(out), nil
 }
 
-func (r *Reader) ReadStartingWithUser(_ context.Context, _ string, f storage.ReadStartingWithUserFilter, _ storage.ReadStartingWithUserOptions) (storage.TupleIterator, error) {
+func (r *Reader) ReadStartingWithUser(_ context.Context, _ string, f storage.ReadStartingWithUserFilter, o storage.ReadStartingWithUserOptions) (storage.TupleIterator, error) {
+	r.requireHC("ReadStartingWithUser", o.Consistency.Preference)
 	type rec struct {
 		id string
 		i  int
